@@ -1,7 +1,147 @@
 import Rare.Base.Proto
+import Rare.Model.C18
+/-!
+Line-protocol ops of C18 (fields after the property id).  `argc` is the number of arguments the
+template passes; fields beyond it are ignored (defaults apply).  `zok` = `time.LoadLocation(zone)`
+succeeds on the host (oracle).  `off` / `abbr` = what Go reports for the zone at the instant.
+
+    fmt    <argc> <fmt> <zone> <zok> <arg> <off> <abbr>        {timeformat <arg> <fmt> <zone>}
+    attr   <argc> <attr> <zone> <zok> <arg> <off>              {timeattr <arg> <attr> <zone>}
+    time   <argc> <fmt> <zone> <zok> <str> <off> <abbr>        {time <str> <fmt> <zone>}
+    bucket <argc> <bucket> <fmt> <zone> <zok> <str> <abbr>     {buckettime <str> <bucket> <fmt> <zone>}
+    seq    <kind> <fmt> <zone> <zok> <strs> <detect> <dok> <offs> <abbrs> <auto> <aok> <bucket>
+           one compiled `{time …}` / `{buckettime …}` stage with format ""/cache/auto evaluated on
+           the strings in order; detect/dok = dateparse.ParseFormat per string, auto/aok =
+           dateparse.ParseIn per string (oracles), offs/abbrs = the zone at the returned instant
+    dur    <arg>                                               {duration <arg>}
+    durf   <arg>                                               {durationformat <arg>}
+    cal    <days>                                              reference calendar only
+-/
 namespace Rare.Drv.C18
+open Rare Rare.C18 Rare.Proto
+
+def isAscii (b : Bytes) : Bool := b.all (· < 128)
+
+def render (errs : String) : Out → String
+  | .val b => s!"ok errs={errs} val={Hex.enc b}"
+  | .unmodelled why => s!"unmodelled {why}"
+
+def compileErr (kind : String) (marker : String) : String := s!"ok errs={kind} val={Hex.enc (asc marker)}"
+
+def ints (s : String) : Option (List Int) :=
+  if s = "." then some [] else (s.splitOn ",").mapM String.toInt?
+
+def flags (s : String) : List Bool := if s = "." then [] else s.toList.map (· == '1')
+
+/-- `f` of the parse stages. -/
+def parseOut (kind : String) (bucketLayout : Bytes) (loc : Loc) (off : Int) (abbr : Bytes) (p : Parsed) : Out :=
+  if kind = "bucket" then bucketOut bucketLayout (zoneAt loc off abbr).2 p else unixOut loc off abbr p
+
+/-- sequential evaluation of one `cache` stage -/
+def runCache (kind : String) (bl : Bytes) (loc : Loc) :
+    Bytes → List (Bytes × Option Bytes × Int × Bytes) → List Out
+  | _, [] => []
+  | st, (str, det, off, abbr) :: r =>
+    let (o, st') := cacheStep st str det (parseOut kind bl loc off abbr)
+    o :: runCache kind bl loc st' r
+
+def zipSeq : List Bytes → List Bytes → List Bool → List Int → List Bytes → List (Bytes × Option Bytes × Int × Bytes)
+  | s :: ss, d :: ds, k :: ks, o :: os, a :: as => (s, (if k then some d else none), o, a) :: zipSeq ss ds ks os as
+  | _, _, _, _, _ => []
+
+def renderSeq (outs : List Out) : String :=
+  match outs.find? (fun o => match o with | .unmodelled _ => true | _ => false) with
+  | some (.unmodelled w) => s!"unmodelled {w}"
+  | _ => "ok errs=. val=" ++ hexList (outs.map fun o => match o with | .val b => b | _ => [])
 
 def handle : List String → String
+  | ["fmt", argc, fmt, zone, zok, arg, off, abbr] =>
+    match argc.toNat?, Hex.dec fmt, Hex.dec zone, Hex.dec arg, off.toInt?, Hex.dec abbr with
+    | some n, some fmt, some zone, some arg, some off, some abbr =>
+      if !(isAscii fmt && isAscii zone) then "unmodelled non-ascii"
+      else if n < 1 ∨ n > 3 then compileErr "func.argcount" "<ARGN>"
+      else
+        let fmt := if n ≥ 2 then fmt else rfc3339
+        let zone := if n ≥ 3 then zone else []
+        let layout := namedTimeFormatToFormat timeFormats fmt
+        let (loc, ok) := parseTimezoneLocation zone (zok = "1")
+        if !ok then compileErr "func.parsing" "<PARSE-ERROR>"
+        else render "." (timeFormatStage layout loc arg off abbr)
+    | _, _, _, _, _, _ => "bad-args"
+  | ["attr", argc, attr, zone, zok, arg, off] =>
+    match argc.toNat?, Hex.dec attr, Hex.dec zone, Hex.dec arg, off.toInt? with
+    | some n, some attr, some zone, some arg, some off =>
+      if !(isAscii attr && isAscii zone) then "unmodelled non-ascii"
+      else if n < 2 ∨ n > 3 then compileErr "func.argcount" "<ARGN>"
+      else
+        let zone := if n ≥ 3 then zone else []
+        let (loc, ok) := parseTimezoneLocation zone (zok = "1")
+        if !ok then compileErr "func.parsing" "<PARSE-ERROR>"
+        else if !attrKeys.contains (toUpper attr) then compileErr "func.enum" "<ENUM>"
+        else render "." (timeAttrStage attr loc arg off)
+    | _, _, _, _, _ => "bad-args"
+  | ["time", argc, fmt, zone, zok, str, off, abbr] =>
+    match argc.toNat?, Hex.dec fmt, Hex.dec zone, Hex.dec str, off.toInt?, Hex.dec abbr with
+    | some n, some fmt, some zone, some str, some off, some abbr =>
+      if !(isAscii fmt && isAscii zone) then "unmodelled non-ascii"
+      else if n < 1 ∨ n > 3 then compileErr "func.argcount" "<ARGN>"
+      else
+        let fmt := if n ≥ 2 then fmt else []
+        let zone := if n ≥ 3 then zone else []
+        let (loc, ok) := parseTimezoneLocation zone (zok = "1")
+        if !ok then compileErr "func.parsing" "<PARSE-ERROR>"
+        else match modeOf timeFormats fmt with
+          | .explicit layout => render "." (parseThen layout str (unixOut loc off abbr))
+          | _ => "unmodelled needs-seq-op"
+    | _, _, _, _, _, _ => "bad-args"
+  | ["bucket", argc, bucket, fmt, zone, zok, str, abbr] =>
+    match argc.toNat?, Hex.dec bucket, Hex.dec fmt, Hex.dec zone, Hex.dec str, Hex.dec abbr with
+    | some n, some bucket, some fmt, some zone, some str, some abbr =>
+      if !(isAscii fmt && isAscii zone && isAscii bucket) then "unmodelled non-ascii"
+      else if n < 2 ∨ n > 4 then compileErr "func.argcount" "<ARGN>"
+      else
+        let fmt := if n ≥ 3 then fmt else []
+        let zone := if n ≥ 4 then zone else []
+        let bl := timeBucketToFormat bucketTable bucket
+        if bl = [] then compileErr "func.enum" "<ENUM>"
+        else
+          let (loc, ok) := parseTimezoneLocation zone (zok = "1")
+          if !ok then compileErr "func.parsing" "<PARSE-ERROR>"
+          else match modeOf timeFormats fmt with
+            | .explicit layout => render "." (parseThen layout str (bucketOut bl (zoneAt loc 0 abbr).2))
+            | _ => "unmodelled needs-seq-op"
+    | _, _, _, _, _, _ => "bad-args"
+  | ["seq", kind, fmt, zone, zok, strs, detect, dok, offs, abbrs, auto, aok, bucket] =>
+    match Hex.dec fmt, Hex.dec zone, decHexList strs, decHexList detect, ints offs, decHexList abbrs, ints auto, Hex.dec bucket with
+    | some fmt, some zone, some strs, some detect, some offs, some abbrs, some auto, some bucket =>
+      if !(isAscii fmt && isAscii zone) then "unmodelled non-ascii"
+      else
+        let (loc, ok) := parseTimezoneLocation zone (zok = "1")
+        let bl := timeBucketToFormat bucketTable bucket
+        if !ok then compileErr "func.parsing" "<PARSE-ERROR>"
+        else match modeOf timeFormats fmt with
+          | .cache => renderSeq (runCache kind bl loc [] (zipSeq strs detect (flags dok) offs abbrs))
+          | .auto =>
+            -- `dateparse.ParseIn` is the oracle: its instant goes through `f` unchanged
+            if kind = "bucket" then "unmodelled auto-bucket"
+            else renderSeq ((auto.zip (flags aok)).map fun (u, k) => if k then Out.val (itoa u) else Out.val errorParsing)
+          | .explicit _ => "bad-args"
+    | _, _, _, _, _, _, _, _ => "bad-args"
+  | ["dur", arg] =>
+    match Hex.dec arg with
+    | some arg => render "." (duration arg)
+    | none => "bad-args"
+  | ["durf", arg] =>
+    match Hex.dec arg with
+    | some arg => render "." (durationFormat arg)
+    | none => "bad-args"
+  | ["cal", days] =>
+    match days.toInt? with
+    | some z =>
+      let c := civilFromDays z
+      let w := isoYearWeek z
+      s!"ok {c.y} {c.m} {c.d} wd={weekday z} yd={yearDay z + 1} iso={w.1}-{w.2} q={quarter c.m} back={daysFromCivil c.y c.m c.d}"
+    | none => "bad-args"
   | _ => "bad-op"
 
 end Rare.Drv.C18
